@@ -28,7 +28,7 @@ RULE = ("complete enumeration of %d configurations: edge kind (odometry, landmar
 NBIND = {"quick": 1200, "thorough": 40000}
 PLAN = {
     "quick": {"cases": NCOMBO + NBIND["quick"], "soft_s": 100, "min_nontrivial": NCOMBO, "require": ["eval:accept-iff-consistent", "eval:bound-by-id", "eval:accepted-edge-usable", "consistent_configurations",
-                                                                                  "inconsistent_configurations", "edge_prebound:named", "edge_prebound:stale", "lookalike_pairs", "file_binding_cases", "contiguous_id_range_listed_out_of_order", "empty_vertex_list_with_bound_edges", "unbound_edge_is_valid_queries"]},
+                                                                                  "inconsistent_configurations", "edge_prebound:named", "edge_prebound:stale", "lookalike_pairs", "file_binding_cases", "contiguous_id_range_listed_out_of_order", "empty_vertex_list_with_bound_edges", "unbound_edge_is_valid_queries", "shallow_copied_edges_in_a_second_graph"]},
     "thorough": {"cases": NCOMBO * 12 + NBIND["thorough"], "soft_s": 1200, "min_nontrivial": NCOMBO * 12, "require": ["eval:accept-iff-consistent", "eval:bound-by-id", "eval:accepted-edge-usable",
                                                                                                 "consistent_configurations", "inconsistent_configurations"]},
 }
@@ -107,6 +107,32 @@ def binding_case(ctx, i, rng):
             raised = type(ex).__name__
         ctx.check("accept-iff-consistent", raised is not None, {"where": "whole-graph", "why": "reused edge names a vertex id that is not in the new graph"}, {"raised": raised},
                   {"graph": {k: v for k, v in spec.items() if k != "truth_by_id"}, "missing_id": str(gone.id)})
+    # shallow copies of bound edges (copy.copy: the copy starts out with the *same* `vertices` list object) used for another graph over other vertex
+    # objects: each graph's edges end up attached to that graph's own vertices, and building the second graph leaves the first one alone
+    import copy as _copy
+
+    g_a = M.build(spec)
+    va = {v.id: v for v in g_a._vertices}
+    copies = [_copy.copy(e) for e in g_a._edges]
+    vb_list = M.build_vertices(spec)
+    g_b = M.Graph(copies, vb_list)
+    vb = {v.id: v for v in vb_list}
+    ok_a = all(e.vertices is not None and all(ev is va[vid] for ev, vid in zip(e.vertices, e.vertex_ids)) for e in g_a._edges)
+    ok_b = all(e.vertices is not None and all(ev is vb[vid] for ev, vid in zip(e.vertices, e.vertex_ids)) for e in g_b._edges)
+    ctx.check("bound-by-id", ok_a and ok_b, {"where": "whole-graph", "edges": "shallow copies used for a second graph"}, {"first_graph_still_bound_to_its_vertices": ok_a, "second_graph_bound_to_its_own": ok_b},
+              {"graph": {k: v for k, v in spec.items() if k != "truth_by_id"}})
+    ctx.count("shallow_copied_edges_in_a_second_graph")
+    # the same edge objects scored against a series of short-lived vertex lists (candidate trajectories): every time they are attached to the list given
+    # *this* time, also when an earlier list has been garbage-collected and a new one happens to live at the same address
+    edges_r = list(g_a._edges)
+    ok_r = True
+    for _round in range(6):
+        vs_r = M.build_vertices(spec)
+        g_r = M.Graph(edges_r, vs_r)
+        by_r = {v.id: v for v in vs_r}
+        ok_r = ok_r and all(all(ev is by_r[vid] for ev, vid in zip(e.vertices, e.vertex_ids)) for e in g_r._edges)
+        del g_r, vs_r, by_r
+    ctx.check("bound-by-id", ok_r, {"where": "whole-graph", "edges": "reused for a series of short-lived vertex lists"}, None, {"graph": {k: v for k, v in spec.items() if k != "truth_by_id"}})
     # no vertices at all (an empty list / tuple): every id the (still bound) edges name is unknown to such a graph
     for empty in ([], ()):
         raised = None
